@@ -1,17 +1,38 @@
 package eval
 
 import (
+	"src.elv.sh/pkg/eval/vars"
 	"src.elv.sh/pkg/parse"
 	vrt "src.elv.sh/pkg/zzvrt"
 )
 
-// verifEvaler: an interpreter with an empty builtin namespace and one global
-// variable; enough for the parser and the compiler (nothing is executed).
+// verifEvaler: an interpreter with an empty builtin namespace and two global
+// variables; enough for the parser and the compiler (nothing is executed).
 func verifEvaler() (*Evaler, *Ns) {
-	g := &Ns{}
+	g := &Ns{
+		slots: []vars.Var{&verifCell{"X"}, &verifCell{"Y"}},
+		infos: []staticVarInfo{{"x", false, false}, {"y", false, false}},
+	}
 	ev := &Evaler{builtin: &Ns{}, global: g, modules: map[string]*Ns{}}
 	return ev, g
 }
+
+// verifGlobalIntact: the global namespace is the same object and still holds
+// exactly x = X and y = Y, both live.
+func verifGlobalIntact(ev *Evaler, g *Ns) bool {
+	if ev.Global() != g || len(g.slots) != 2 || len(g.infos) != 2 {
+		return false
+	}
+	return g.infos[0] == staticVarInfo{"x", false, false} && g.infos[1] == staticVarInfo{"y", false, false} &&
+		g.slots[0].Get() == "X" && g.slots[1].Get() == "Y"
+}
+
+type verifCell struct{ v any }
+
+func (c *verifCell) Get() any        { return c.v }
+func (c *verifCell) Set(x any) error { c.v = x; return nil }
+
+var _ vars.Var = &verifCell{}
 
 func verifPorts() ([]*Port, chan any) {
 	ch := make(chan any, 4)
@@ -28,6 +49,7 @@ func VerifC16Static(n int) {
 	ev, g := verifEvaler()
 	parseErr, _, compileErr := ev.Check(src, nil)
 	vrt.Reach("static check done")
+	vrt.Assert(verifGlobalIntact(ev, g), "the static check leaves the global namespace as it was")
 	vrt.Assume(parseErr != nil || compileErr != nil)
 	ports, ch := verifPorts()
 	err := ev.Eval(src, EvalCfg{Ports: ports})
@@ -38,7 +60,7 @@ func VerifC16Static(n int) {
 		vrt.Assert(len(UnpackCompilationErrors(err)) > 0, "a compilation error is reported by evaluation exactly when the static check reports one")
 	}
 	vrt.Assert(len(ch) == 0, "no value output was produced")
-	vrt.Assert(ev.Global() == g, "the global namespace is as it was")
+	vrt.Assert(verifGlobalIntact(ev, g), "the global namespace is as it was")
 }
 
 // VerifC16Seed: window mutants of seed programs with static errors.
@@ -55,12 +77,13 @@ func VerifC16Seed(seed, at int) {
 	ev, g := verifEvaler()
 	parseErr, _, compileErr := ev.Check(src, nil)
 	vrt.Reach("static check done")
+	vrt.Assert(verifGlobalIntact(ev, g), "the static check leaves the global namespace as it was")
 	vrt.Assume(parseErr != nil || compileErr != nil)
 	ports, ch := verifPorts()
 	err := ev.Eval(src, EvalCfg{Ports: ports})
 	vrt.Assert(err != nil, "code with a static error does not evaluate successfully")
 	vrt.Assert(len(ch) == 0, "no value output was produced")
-	vrt.Assert(ev.Global() == g, "the global namespace is as it was")
+	vrt.Assert(verifGlobalIntact(ev, g), "the global namespace is as it was")
 	if parseErr == nil {
 		vrt.Assert(len(UnpackCompilationErrors(err)) > 0, "a compilation error is reported by evaluation exactly when the static check reports one")
 	}
@@ -68,4 +91,5 @@ func VerifC16Seed(seed, at int) {
 
 var verifC16Seeds = []string{
 	"var a; put $b", "set c = 1", "var a = 1; var a~ = 2; $x", "fn f { }; g~", "put $nonexistent", "var x; del $y", "put [", "if", "var",
+	"del x; put $z", "var x = 1; $z", "fn y { }; z~", "set x = 2; put $z", "var z; del z y; $w", "del y; var", "{ del x }; $z", "tmp x = 1; if",
 }
